@@ -2,6 +2,8 @@
 
 package v0
 
+import "time"
+
 // Export shim for the /verif block-sync check (C13). Re-exports only.
 
 // VerifC13MaxPeerHeight is BlockPool.MaxPeerHeight() of the reactor's pool: the height the pool believes the best
@@ -13,3 +15,7 @@ func (bcR *BlockchainReactor) VerifC13PoolHeight() int64 {
 	h, _, _ := bcR.pool.GetStatus()
 	return h
 }
+
+// VerifC13SetPeerTimeout sets the pool's peerTimeout ("not const so we can override with tests" - the package's own
+// tests shorten it the same way). Call it before any pool exists.
+func VerifC13SetPeerTimeout(d time.Duration) { peerTimeout = d }
